@@ -2581,8 +2581,40 @@ func ruleGridFromCells(c *eng.Ctx) {
 		return false, false
 	}
 	nSize, nRow := 0, 0
+	// freshSliceFn: every return of g hands back a slice made in that call (directly, or through a function of which
+	// the same holds)
+	var freshSliceFn func(g *ssa.Function, d int) bool
+	freshSliceFn = func(g *ssa.Function, d int) bool {
+		if g == nil || g.Blocks == nil || d > 3 {
+			return false
+		}
+		n := 0
+		for _, r := range eng.Returns(g) {
+			rv := eng.ReturnValues(r)
+			if len(rv) == 0 {
+				continue
+			}
+			n++
+			switch v := rv[0].(type) {
+			case *ssa.MakeSlice:
+			case *ssa.Call:
+				if !freshSliceFn(eng.StaticCallee(v), d+1) {
+					return false
+				}
+			default:
+				return false
+			}
+		}
+		return n > 0
+	}
+	// instantiations of generic helpers of the package belong to the cluster too
+	var withAnon []*ssa.Function
 	for _, fn := range cluster {
-		if fn.Pkg != root.Pkg {
+		withAnon = append(withAnon, fn)
+		withAnon = append(withAnon, fn.AnonFuncs...)
+	}
+	for _, fn := range cluster {
+		if fn.Pkg != root.Pkg && !(fn.Pkg == nil && fn.Origin() != nil && fn.Origin().Pkg == root.Pkg) {
 			continue
 		}
 		eng.Instrs(fn, false, func(in ssa.Instruction) {
@@ -2629,6 +2661,36 @@ func ruleGridFromCells(c *eng.Ctx) {
 						fresh = true
 					}
 				case *ssa.Call:
+					// the element comes from a function handed in as a parameter (tabulate(n, func(i int) []Cell {...})):
+					// every function handed in at the call sites returns a slice made in that call
+					if prm, isParam := v.Call.Value.(*ssa.Parameter); isParam && eng.InLoop(v.Block()) {
+						pi := -1
+						for i, q := range fn.Params {
+							if q == prm {
+								pi = i
+							}
+						}
+						sites, all := 0, true
+						for _, caller := range withAnon {
+							eng.Instrs(caller, false, func(in2 ssa.Instruction) {
+								ci, ok := in2.(ssa.CallInstruction)
+								if !ok || eng.StaticCallee(ci) != fn || pi < 0 || pi >= len(ci.Common().Args) {
+									return
+								}
+								sites++
+								mc, ok := ci.Common().Args[pi].(*ssa.MakeClosure)
+								if !ok {
+									all = false
+									return
+								}
+								lit, _ := mc.Fn.(*ssa.Function)
+								if !freshSliceFn(lit, 0) {
+									all = false
+								}
+							})
+						}
+						fresh = sites > 0 && all
+					}
 					// a helper that returns a slice it made (newRow(i, width))
 					if g := eng.StaticCallee(v); g != nil && g.Blocks != nil && eng.InModule(g) && eng.InLoop(v.Block()) {
 						all, n := true, 0
@@ -2658,6 +2720,28 @@ func ruleTokenValueOwned(c *eng.Ctx) {
 	const R = "R6.10-TOKEN-VALUE-OWNED"
 	c.Rule(R, "the bytes of a token belong to the token: the Value stored in a core.Token is built in storage of the call that makes the token (a local buffer, a literal, a copy), never taken from a buffer kept in the Lexer, which the next token overwrites while the parser still holds this one as lookahead", 8, 0)
 	n := 0
+	// token constructors: functions of the package that store one of their parameters into Token.Value
+	ctorParam := map[*ssa.Function]int{}
+	for _, fn := range c.P.ModuleFuncs() {
+		if fn.Pkg == nil || eng.ShortPath(fn.Pkg.Pkg.Path()) != "core" || fn.Blocks == nil {
+			continue
+		}
+		eng.Instrs(fn, false, func(in ssa.Instruction) {
+			st, ok := in.(*ssa.Store)
+			if !ok {
+				return
+			}
+			fr, ok := eng.AsField(st.Addr)
+			if !ok || fr.Field != "Value" || !strings.HasSuffix(fr.Struct, "core.Token") {
+				return
+			}
+			for i, prm := range fn.Params {
+				if st.Val == ssa.Value(prm) {
+					ctorParam[fn] = i
+				}
+			}
+		})
+	}
 	for _, fn := range c.P.ModuleFuncs() {
 		if fn.Pkg == nil || eng.ShortPath(fn.Pkg.Pkg.Path()) != "core" || fn.Signature.Recv() == nil || len(fn.Params) == 0 {
 			continue
@@ -2668,14 +2752,28 @@ func ruleTokenValueOwned(c *eng.Ctx) {
 		recv := ssa.Value(fn.Params[0])
 		k := 0
 		eng.Instrs(fn, false, func(in ssa.Instruction) {
-			st, ok := in.(*ssa.Store)
-			if !ok {
+			var val ssa.Value
+			var at token.Pos
+			if st, ok := in.(*ssa.Store); ok {
+				fr, ok := eng.AsField(st.Addr)
+				if !ok || fr.Field != "Value" || !strings.HasSuffix(fr.Struct, "core.Token") {
+					return
+				}
+				val, at = st.Val, st.Pos()
+			} else if ci, ok := in.(ssa.CallInstruction); ok {
+				g := eng.StaticCallee(ci)
+				i, isCtor := ctorParam[g]
+				if g == nil || !isCtor || i >= len(ci.Common().Args) {
+					return
+				}
+				val, at = ci.Common().Args[i], ci.Pos()
+			} else {
 				return
 			}
-			fr, ok := eng.AsField(st.Addr)
-			if !ok || fr.Field != "Value" || !strings.HasSuffix(fr.Struct, "core.Token") {
-				return
-			}
+			st := struct {
+				Val ssa.Value
+				pos token.Pos
+			}{val, at}
 			n++
 			k++
 			shared := token.NoPos
@@ -2695,7 +2793,7 @@ func ruleTokenValueOwned(c *eng.Ctx) {
 					}
 				}
 			}
-			c.Check(shared == token.NoPos, R, fmt.Sprintf("%s#value%d", eng.FuncName(fn), k), st.Pos(), "token bytes are the call's own",
+			c.Check(shared == token.NoPos, R, fmt.Sprintf("%s#value%d", eng.FuncName(fn), k), st.pos, "token bytes are the call's own",
 				"the token's Value comes from a buffer kept in the Lexer ("+c.P.Pos(shared)+"): the next token overwrites it while the parser still holds this token as lookahead")
 		})
 	}
